@@ -74,7 +74,7 @@ BUILT["C04"] = ("E2", "exploration", "deterministic simulation: real Swarm::dial
   "Generated DialOpts (all PeerConditions, duplicate / own-listen / foreign-/p2p addresses, per-field behaviour address books with and without extend) in every target state; rejected dials: DialPeerConditionFalse, one DialFailure per field, no transport call, no pending connection; accepted dials: exact ordered address list handed to the transport, NoAddresses when empty",
   E2_NOTE, "5/C04")
 BUILT["C05"] = ("E2", "fault_enumeration", "deterministic simulation with identity faults enumerated: the stub transport authenticates each side of each connection as expected / other / local peer",
-  "All 9 (dialer-side x listener-side) authentication combinations x (expected peer none / remote / own id) x (ordinary or role-override dial), interleaved with ordinary traffic: established only when the id matches the expectation and is not local, else WrongPeerId / LocalPeerId, and the refused muxer is closed via poll_close",
+  "All 9 (dialer-side x listener-side) authentication combinations x (expected peer none / remote / own id / a third peer while a dial to the remote is pending) x (ordinary or role-override dial), interleaved with ordinary traffic: established only when the id matches the expectation and is not local, else WrongPeerId / LocalPeerId, and the refused muxer is closed via poll_close",
   E2_NOTE, "5/C05")
 BUILT["C07"] = ("E2", "exploration", "deterministic simulation: numbered NotifyHandler::One/Any emissions from any composite field against starved connection tasks (back-pressure in both directions: echo bursts fill the handler-event channel too), racing closes and resets; history check at quiescence",
   "Targeting (connection and field), at-most-once, per-handler order, Any only to a connection established at emission (snapshot rebuilt from the event history), loss only when the target (some snapshot member for Any) was closed or commanded to close",
